@@ -132,3 +132,33 @@ def defined_at_origin(env, recipes, pvals):
         except Exception:
             return False
     return True
+
+
+def decoy_model(env, recipe, salt=0):
+    """An EARLIER model of the same process whose slice views are name-equal (same derived name and size, other elements) to
+    those of the judged recipe: built, differentiated, compiled and called once, results discarded.  Whatever optyx
+    remembers of it (tables keyed by a view's name and size) must not reach the judged model.  True if one was built."""
+    from harness import gen
+    sib = gen.sibling_views(recipe, env, salt)
+    if sib is None:
+        return False
+    try:
+        with quiet():
+            b, e = build(*sib)
+            if not is_expr(e):
+                return True
+            from optyx.core.autodiff import compile_hessian, compile_jacobian, gradient
+            from optyx.core.compiler import compile_expression, compile_gradient
+            V = sorted(e.get_variables(), key=lambda v: natural_key(v.name))
+            x = np.linspace(0.6, 1.4, max(len(V), 1))[:len(V)]
+            for fn in (lambda: [gradient(e, v) for v in V[:8]], lambda: compile_expression(e, V)(x),
+                       lambda: compile_gradient(e, V)(x), lambda: compile_jacobian([e], V)(x),
+                       lambda: e.evaluate({v.name: 1.1 for v in V}), lambda: e.degree,
+                       lambda: compile_hessian(e, V)(x) if len(V) <= 8 else None):
+                try:
+                    fn()
+                except Exception:
+                    pass
+    except Exception:
+        pass
+    return True
